@@ -7,7 +7,7 @@ bad=0
 for f in selftest/refactors/*.patch; do
   props=$(python3 -c "import json;print(' '.join(json.load(open('selftest/refactors/expect.json'))['$(basename $f)']))")
   scratch=$(mktemp -d /tmp/govc-scratch.XXXXXX); out=$(mktemp -d /tmp/govc-out.XXXXXX)
-  git -C /repo archive HEAD | tar -x -C "$scratch"; cp known_findings.json "$out/"; cp -r known "$out/known"
+  git -C /repo archive HEAD | tar -x -C "$scratch"; cp known_findings.json "$out/"; cp -r known bounded "$out/"
   if ! (cd "$scratch" && git apply "$V/$f" 2>/dev/null && go build ./... 2>/dev/null); then echo "$(basename $f) PATCH-BROKEN"; rm -rf "$scratch" "$out"; continue; fi
   for p in $props; do
     res=$(timeout 900 bin/govc check --property $p --tier quick --repo "$scratch" --verif "$out" 2>&1); rc=$?
